@@ -14,7 +14,8 @@ ROLE_NAMES = ["root", "key_mgr", "pkg_mgr", "Root", "ROOT", "root.json", "key_mg
               "", "x", "r\u043eot", "caf\u00e9_mgr", "cafe\u0301_mgr", "\u212bngstr\u00f6m", "\u00c5ngstro\u0308m"]
 role_names = st.one_of(st.sampled_from(ROLE_NAMES), st.sampled_from(ROLE_NAMES[:3]), G.strings)
 
-versions = st.one_of(st.integers(1, 5), st.integers(1, 2 ** 40), st.sampled_from([1, 2, 2 ** 31, 2 ** 63, 2 ** 64, 10 ** 30]))
+versions = st.one_of(st.integers(1, 5), st.integers(1, 2 ** 40), st.sampled_from([1, 2, 2 ** 31, 2 ** 63, 2 ** 64, 10 ** 30]),
+                     st.sampled_from([2 ** 53, 2 ** 53 + 1, 2 ** 1023, 2 ** 1024, 2 ** 1024 + 1, 10 ** 400]))   # beyond doubles of every kind
 spec_versions = st.one_of(st.sampled_from(["0.6.0", "0.1.0", "1.0.0"]), G.strings)
 thresholds = st.one_of(st.integers(1, 3), st.integers(1, 6), st.sampled_from([1, 2 ** 40]))
 
@@ -44,6 +45,11 @@ def delegations_of(draw, pubs, roles=None, min_roles=0, max_roles=4):
     d = {}
     for r in roles:
         ks = draw(st.lists(st.sampled_from(pubs), max_size=len(pubs), unique=True)) if pubs else []
+        if draw(st.integers(0, 29)) == 0:
+            # a role with very many keys (no limit on their number is documented): 1025-2100 keys nobody here holds, around ours
+            crowd = keys.derived_ghosts(draw(st.integers(0, 2 ** 32)), draw(st.sampled_from([1025, 1500, 2100, 4097])))
+            cut = draw(st.integers(0, len(crowd)))
+            ks = [k for k in crowd[:cut] if k not in ks] + ks + [k for k in crowd[cut:] if k not in ks]
         d[r] = {"pubkeys": ks, "threshold": draw(thresholds)}
     return d
 
